@@ -439,7 +439,7 @@ def scenario_indexer(run, seed, k, mods):
     r = rng(seed, "C07", "i", k)
     cls = CLASSES[int(r.integers(4))]
     ng = int(r.choice([1, 2, 3, 5, 8]))
-    n = int(r.choice([30, 400, 2000]))
+    n = int(r.choice([30, 400, 2000, 1, 2, 3, 4]))       # very short lists too: a 3x3 array is three peaks in rows
     tol = float(r.choice([0.02, 0.05, 0.1, 0.25, 0.7]))
     noise = float(r.choice([0.0, 1e-3, 0.02]))
     cell, UBs = gen_grains(r, cls, ng)
